@@ -61,8 +61,8 @@ type env interface {
 	alloc(x *ctx, tag string) ([]any, bool)
 	// pass executes the real hand-off and returns what arrived at dst.
 	pass(x *ctx, port string, src *holder, dst int) (roots []any, hidden bool, kept bool, ok bool)
-	// passw executes a query by a component that writes into the answer.
-	passw(x *ctx, port string, src *holder, dst int) (roots []any, ok bool)
+	// passw executes a query by a component (returned as writer) that writes into the answer.
+	passw(x *ctx, port string, src *holder, dst int) (roots []any, writer string, ok bool)
 	// episode generates one episode (gen mode) through x.do.
 	episode(x *ctx)
 	close()
@@ -77,6 +77,8 @@ type ctx struct {
 	holders map[int]*holder
 	mutated map[uintptr]bool // locations already mutated in this episode
 	lastMut *holder          // the holder that mutated last
+	wasNe   map[string]bool  // ports whose last re-query already differed from the first answer
+	recvMut bool             // since the last re-query, some holder other than a caller-built input mutated its value
 }
 
 func (x *ctx) visible() []*holder {
@@ -169,8 +171,8 @@ func (x *ctx) changedSet() ([]int, []*holder) {
 }
 
 func sig(port, what, typ, path string) string {
-	s := "alias:" + port + ":" + what + ":" + typ
-	if p := cleanPath(path); p != "" && p != "*" {
+	s := "alias:" + port + ":" + what + ":" + strings.ReplaceAll(typ, "*", "")
+	if p := strings.ReplaceAll(cleanPath(path), "*", ""); p != "" {
 		s += ":" + p
 	}
 	return s
@@ -240,7 +242,7 @@ func (x *ctx) do(line string) string {
 		x.env, x.envName, x.variant = nil, f[1], f[2]
 		x.holders = map[int]*holder{}
 		x.mutated = map[uintptr]bool{}
-		x.lastMut = nil
+		x.lastMut, x.recvMut, x.wasNe = nil, false, map[string]bool{}
 		if mk, ok := envs[f[1]]; ok {
 			x.env = mk(f[2])
 		}
@@ -312,10 +314,10 @@ func (x *ctx) do(line string) string {
 			if !equalRoots(h.roots, ref.pristine) {
 				cmp = "ne"
 			}
-			if cmp == "ne" && !sh.selfMut {
+			if cmp == "ne" && !sh.selfMut && !x.wasNe[f[1]] {
 				what := "requery_changed"
-				if x.lastMut != nil && x.lastMut.input {
-					what = "requery_changed_after_input_mutation"
+				if x.lastMut != nil && !x.recvMut {
+					what = "requery_changed_after_input_mutation" // only callers' own inputs were mutated since the last re-query
 				} else if x.lastMut != nil {
 					what = "requery_changed_after_receiver_mutation"
 				}
@@ -323,6 +325,10 @@ func (x *ctx) do(line string) string {
 					fmt.Sprintf("env %s/%s: the value obtained through %s (holder %d) differs from the first answer (holder %d) although the component stored nothing new",
 						x.envName, x.variant, f[1], h.id, ref.id))
 			}
+		}
+		if ref != nil {
+			x.lastMut, x.recvMut = nil, false // attribution window of the next re-query starts here
+			x.wasNe[f[1]] = cmp == "ne"
 		}
 		out = "sh" + idList(ids) + " " + cmp
 		if len(ids) > 0 {
@@ -335,18 +341,19 @@ func (x *ctx) do(line string) string {
 		if e1 != nil || e2 != nil || !ok {
 			break
 		}
-		roots, ok := x.env.passw(x, f[1], sh, dst)
+		roots, writer, ok := x.env.passw(x, f[1], sh, dst)
 		if !ok {
 			break
 		}
 		h := x.bind(dst, roots, false, false, false, f[1])
+		x.lastMut, x.recvMut = h, true
 		ids, first := x.sharers(h)
 		x.monitorShare(f[1], h, ids, first)
 		chg, newly := x.changedSet()
 		for _, o := range newly {
-			x.run.Violate(sig(f[1], "component_writes_into_answer", o.typ, ""),
-				fmt.Sprintf("env %s/%s: the component that queried %s wrote into the answer; the value of holder %d (%s, through %q) changed",
-					x.envName, x.variant, f[1], o.id, o.typ, o.port))
+			x.run.Violate(sig(writer, "writes_into_answer_of:"+f[1], o.typ, ""),
+				fmt.Sprintf("env %s/%s: %s queried %s and wrote into the answer; the value of holder %d (%s, through %q) changed",
+					x.envName, x.variant, writer, f[1], o.id, o.typ, o.port))
 		}
 		out = "sh" + idList(ids) + " chg" + idList(chg)
 		x.run.Count("op:passw")
@@ -382,6 +389,9 @@ func (x *ctx) do(line string) string {
 		}
 		h.selfMut = true
 		x.lastMut = h
+		if !h.input {
+			x.recvMut = true
+		}
 		chg, newly := x.changedSet()
 		x.monitorChange(h, newly)
 		out = "chg" + idList(chg)
@@ -466,7 +476,7 @@ func main() {
 	a := hx.ParseArgs()
 	hx.Must(log.InitLogger(log.Config{Level: "error", Format: "console", Color: "disable"}))
 	run := hx.NewRun(a.Dir)
-	x := &ctx{run: run, rng: hx.NewRng(a.Seed), holders: map[int]*holder{}, mutated: map[uintptr]bool{}}
+	x := &ctx{run: run, rng: hx.NewRng(a.Seed), holders: map[int]*holder{}, mutated: map[uintptr]bool{}, wasNe: map[string]bool{}}
 	defer func() {
 		if x.env != nil {
 			x.env.close()
